@@ -69,6 +69,8 @@ class EGen:
 
     def scalar(self, cplx):
         r = self.rnd
+        # complex scalars on real operators only once the recorded TypeError is gone
+        cplx = bool(cplx) or ("mul_complex_scalar_real_op" not in self.present and r.random() < 0.3)
         c = [r.choice([-3, -2, -1, 0, 1, 2, 3]), r.choice([-2, -1, 0, 0, 1, 2]) if cplx else 0]
         kinds = ["int", "float", "npscalar", "arr0"] + (["complex"] * 2 if cplx else [])
         sk = r.choice(kinds)
